@@ -6,6 +6,8 @@ pub mod c12;
 pub mod c13;
 pub mod c16;
 pub mod c17;
+pub mod c18;
+pub mod c19;
 pub mod c20;
 
 pub type ReplayFn = fn(&mut Ctx, &str, &[u8]) -> Result<Option<String>, Fail>;
@@ -16,12 +18,14 @@ pub fn registry(id: &str) -> Option<(&'static str, fn(&mut Ctx), ReplayFn)> {
         "C13" => ("C13", c13::run, c13::replay),
         "C16" => ("C16", c16::run, c16::replay),
         "C17" => ("C17", c17::run, c17::replay),
+        "C18" => ("C18", c18::run, c18::replay),
+        "C19" => ("C19", c19::run, c19::replay),
         "C20" => ("C20", c20::run, c20::replay),
         _ => return None,
     })
 }
 
-pub const ALL_IDS: &[&str] = &["C12", "C13", "C16", "C17", "C20"];
+pub const ALL_IDS: &[&str] = &["C12", "C13", "C16", "C17", "C18", "C19", "C20"];
 
 /// E4: replay every committed reproduction of this property.
 /// A file that matches an *open* known finding prints its KNOWN-FINDING line;
